@@ -9,8 +9,9 @@ from . import refike as R
 from .childcheck import newsa_index, PROTO_NUM
 from .kernel import _addr_raw
 
-KINDS_C11 = ('invalid_ke_never_offered', 'foreign_child_response', 'foreign_init_response', 'multi_proposal_request', 'foreign_ike_rekey_response', 'ke_unimplemented_group')
-KINDS_C10 = ('bad_reply',)
+KINDS_C11 = ('invalid_ke_never_offered', 'foreign_child_response', 'foreign_init_response', 'multi_proposal_request', 'foreign_ike_rekey_response', 'ke_unimplemented_group',
+             'invalid_ke_cross_offer')
+KINDS_C10 = ('bad_reply', 'delete_child_on_rekeyed')
 KINDS_C17 = ('auth_malformed',)
 KINDS_C14 = ('reuse_spi_request', 'range_request')
 KINDS_C12 = ('widen_response', 'flip_mode_response', 'ts_list_request', 'narrow_rekey_response', 'flip_mode_request', 'narrow_rekey_request', 'range_request')
@@ -106,6 +107,55 @@ def make(kind, seed, world, ip, tap, reach):
                 resp = R.encode({'spi_i': h['spi_i'], 'spi_r': _rb(r, 8), 'exch': 34, 'I': False, 'R': True, 'id': 0}, notify)
             else:
                 resp = ip.seal(s, {'spi_i': h['spi_i'], 'spi_r': h['spi_r'], 'exch': h['exch'], 'I': not h['I'], 'R': True, 'id': h['id']}, notify, _rb(r, 16))
+            world.net.inject(resp, meta['dst'], meta['src'], 0.01, 'byz.invalid_ke')
+            return []
+        rule.label = 'byz.' + kind
+        return rule, lambda w: state.get('verdict')
+
+    # ------------------------------------------------------------------------------------------------------------
+    if kind == 'invalid_ke_cross_offer':
+        # the peer answers a request to rekey the IKE_SA with INVALID_KE_PAYLOAD naming a group the requester did offer - but for a
+        # CHILD_SA (PFS), earlier on this IKE_SA, not in this request: "a suggested group that was never offered is refused" is about the
+        # offer of the exchange at hand
+        state['child_groups'] = {}
+
+        def rule(meta, data):
+            try:
+                h = R.dec_header(data)
+            except R.DecodeError:
+                return None
+            if h['R'] or h['exch'] != R.CREATE_CHILD_SA:
+                return None
+            opened = ip.open(data)
+            if opened is None:
+                return None
+            _, pls, s = opened
+            sa = next((p for p in pls if p['type'] == R.P_SA), None)
+            ke = next((p for p in pls if p['type'] == R.P_KE), None)
+            if sa is None or not sa['proposals']:
+                return None
+            r = random.Random(f'byz:{seed}:{meta["key"]}')
+            groups = {t['id'] for pr in sa['proposals'] for t in pr['transforms'] if t['type'] == R.T_DH}
+            if sa['proposals'][0]['proto'] != R.PROTO_IKE:
+                state['child_groups'].setdefault(meta['sender'], set()).update(groups)
+                return None
+            if ke is None:
+                return None
+            keyid = (meta['sender'], h['spi_i'], h['spi_r'])
+            prev = state['suggested'].get(keyid)
+            if prev is not None and ke['group'] in prev and ke['group'] not in groups:
+                state['verdict'] = ('never_offered_group_accepted', {'exchange': 'CREATE_CHILD_SA', 'what': 'IKE_SA rekey, group of an earlier CHILD_SA offer'},
+                                    f'{meta["sender"]} was told INVALID_KE_PAYLOAD({ke["group"]}) for its IKE_SA rekey although that request offered only DH '
+                                    f'groups {sorted(prev[ke["group"]])} (the group was offered for a CHILD_SA earlier), and re-sent the request with a KE in group {ke["group"]}')
+                return None
+            cands = sorted(g for g in state['child_groups'].get(meta['sender'], ()) if g not in groups)
+            if not cands or prev is not None:
+                return None
+            n = r.choice(cands)
+            state['suggested'].setdefault(keyid, {})[n] = set(groups)
+            count('byz.invalid_ke_cross_offer')
+            notify = [{'type': R.P_NOTIFY, 'proto': 0, 'ntype': R.N_INVALID_KE_PAYLOAD, 'spi': b'', 'data': struct.pack('>H', n)}]
+            resp = ip.seal(s, {'spi_i': h['spi_i'], 'spi_r': h['spi_r'], 'exch': h['exch'], 'I': not h['I'], 'R': True, 'id': h['id']}, notify, _rb(r, 16))
             world.net.inject(resp, meta['dst'], meta['src'], 0.01, 'byz.invalid_ke')
             return []
         rule.label = 'byz.' + kind
@@ -808,6 +858,49 @@ def make(kind, seed, world, ip, tap, reach):
         return rule, lambda w: None
 
     # ------------------------------------------------------------------------------------------------------------
+    if kind == 'delete_child_on_rekeyed':
+        # a peer that has rekeyed the IKE_SA sends, over the OLD IKE_SA and in front of the DELETE that closes it, a DELETE for a CHILD_SA
+        # (RFC 7296 2.8 only requires the IKE_SA DELETE to be the last request on the old IKE_SA).  The CHILD_SAs live in the successor by
+        # then: whatever the responder makes of the request, its kernel and its tables stay in step
+        state['rekeyed'] = set()
+
+        def rule(meta, data):
+            try:
+                h = R.dec_header(data)
+            except R.DecodeError:
+                return None
+            if h['exch'] not in (R.CREATE_CHILD_SA, R.INFORMATIONAL):
+                return None
+            opened = ip.open(data)
+            if opened is None:
+                return None
+            _, pls, s = opened
+            key = (h['spi_i'], h['spi_r'])
+            if h['exch'] == R.CREATE_CHILD_SA:
+                sa = next((p for p in pls if p['type'] == R.P_SA), None)
+                if h['R'] and sa is not None and sa['proposals'] and sa['proposals'][0]['proto'] == R.PROTO_IKE:
+                    state['rekeyed'].add(key)
+                return None
+            if h['R'] or key not in state['rekeyed'] or key in state['suggested']:
+                return None
+            if not any(p['type'] == R.P_DELETE and p['proto'] == R.PROTO_IKE for p in pls):
+                return None
+            r = random.Random(f'byz:{seed}:{meta["key"]}')
+            sender = meta['sender']
+            mine = [(c['proto'], c['spi_init'] if c['x_init'] == sender else c['spi_resp']) for c in tap.children if sender in (c['x_init'], c['x_resp'])]
+            if not mine:
+                return None
+            proto, spi = mine[-1 - r.randrange(min(len(mine), 3))]
+            state['suggested'][key] = True
+            count('byz.' + kind)
+            hd = {'spi_i': h['spi_i'], 'spi_r': h['spi_r'], 'exch': R.INFORMATIONAL, 'I': h['I'], 'R': False}
+            first = ip.seal(s, dict(hd, id=h['id']), [{'type': R.P_DELETE, 'proto': proto, 'spi_size': 4, 'spis': [spi]}], _rb(r, 16))
+            then = ip.seal(s, dict(hd, id=h['id'] + 1), pls, _rb(r, 16))
+            return [(first, 0.0), (then, 0.03)]
+        rule.label = 'byz.' + kind
+        return rule, lambda w: None
+
+    # ------------------------------------------------------------------------------------------------------------
     if kind == 'range_request':
         # a peer whose selectors are real ranges (legal, RFC 7296 3.13.1): addresses first..last that are no CIDR block (also ranges that
         # straddle a power-of-two boundary), ports like 0-1023 or 1024-65535.  What the kernel is told then is the smallest network holding
@@ -849,8 +942,14 @@ def make(kind, seed, world, ip, tap, reach):
                     sel['saddr'], sel['eaddr'] = lo.to_bytes(n, 'big'), (lo + span).to_bytes(n, 'big')
                     done.append(name + '.addr')
                 if how in ('port', 'both') and (sel['sport'], sel['eport']) == (0, 65535) and sel['proto'] in (6, 17):
-                    sel['sport'], sel['eport'] = r.choice([(0, 1023), (1024, 65535), (1000, 2000), (0, 79), (5000, 5001), (1, 65535)])
+                    sel['sport'], sel['eport'] = r.choice([(0, 1023), (1024, 65535), (1000, 2000), (0, 79), (5000, 5001), (1, 65535), (65535, 0)])
                     done.append(name + '.port')
+                elif how in ('port', 'both') and sel['sport'] == sel['eport'] and 0 < sel['sport'] < 65535 and r.random() < 0.5:
+                    # first port above last port (65535-0 is RFC 7296's OPAQUE): whatever such a selector denotes, it is not more than the
+                    # one port the policy has
+                    p_ = sel['sport']
+                    sel['sport'], sel['eport'] = r.choice([(65535, 0), (min(65535, p_ + 20), max(0, p_ - 20)), (p_ + 1, p_ - 1)])
+                    done.append(name + '.port_inverted')
                 p['selectors'] = [sel]
             if not done:
                 return None
